@@ -12,6 +12,8 @@ pub struct Entry {
 }
 
 pub mod decoder_common;
+pub mod ioqueue;
+pub mod term_common;
 pub mod c01;
 pub mod c02;
 pub mod c03;
@@ -38,6 +40,8 @@ fn worker_of(id: &str) -> Option<fn(&Ctx, WorkerCtx, &[String])> {
     match id {
         "C02" => Some(c02::worker),
         "C03" => Some(c03::worker),
+        "C16" => Some(c16::worker),
+        "C17" => Some(c17::worker),
         _ => None,
     }
 }
